@@ -1,5 +1,196 @@
-"""(stub)"""
+"""Contracts for fakesnow/cli.py (C20: the CLI hands the target exactly its own arguments)."""
+from __future__ import annotations
+
+import z3
+
+from pyvc.sorts import I, S, V, mkb, mki
+from pyvc.state import Val
+from pyvc.types import ListT, TupleT
+from pyvc.world import Contract, SpecFun
+
+ARR = z3.ArraySort(I, V)
+
+# ---------------------------------------------------------------------------------------------------------
+# Specification taken from the property text and fakesnow's own option table (arg_parser()):
+#   value-taking options  -d/--db_path VALUE   and the self-contained forms  --db_path=VALUE  -dVALUE
+#   target selection      -m/--module MODULE (module name follows) | --module=MODULE | -mMODULE | first positional
+#   any other dash token before the target (e.g. -h) takes no value.
+# cut(args, i) = number of leading tokens that belong to fakesnow when scanning starts at i:
+#   everything after the target spec, and nothing before it, belongs to the target.
+# ---------------------------------------------------------------------------------------------------------
+CUT = z3.Function("cli_cut", ARR, I, I, I)  # uninterpreted + one-step unfoldings added where it is applied
+def _is_any(t, lits):
+    return z3.Or([t == z3.StringVal(x) for x in lits])
+
+
+def tok_module_flag(t):
+    return _is_any(t, ["-m", "--module"])
+
+
+def tok_module_self(t):
+    return z3.Or(z3.PrefixOf(z3.StringVal("--module="), t), z3.And(z3.PrefixOf(z3.StringVal("-m"), t), z3.Length(t) > 2))
+
+
+def tok_value_flag(t):
+    return _is_any(t, ["-d", "--db_path"])
+
+
+def tok_dash(t):
+    return z3.PrefixOf(z3.StringVal("-"), t)
+
+
+def cut_body(_a, _n, _i):
+    def _tok(i):
+        return V.sval(z3.Select(_a, i))
+
+    return z3.If(
+        z3.Or(_i >= _n, _i < 0),
+        _n,
+        z3.If(
+            tok_module_flag(_tok(_i)),
+            z3.If(_i + 2 < _n, _i + 2, _n),
+            z3.If(
+                tok_module_self(_tok(_i)),
+                _i + 1,
+                z3.If(
+                    tok_value_flag(_tok(_i)),
+                    CUT(_a, _n, _i + 2),
+                    z3.If(tok_dash(_tok(_i)), CUT(_a, _n, _i + 1), _i + 1),
+                ),
+            ),
+        ),
+    )
+
+
+# wf(args, i): the tokens from i up to the target spec are fakesnow's own options in their short / long / = /
+# attached forms, and the value of a value-taking option does not look like an option.  Any other command line
+# makes argparse exit before the target runs, so the property says nothing about it.
+WF = z3.Function("cli_wf", ARR, I, I, z3.BoolSort())
+
+
+def tok_value_self(t):
+    return z3.Or(z3.PrefixOf(z3.StringVal("--db_path="), t), z3.And(z3.PrefixOf(z3.StringVal("-d"), t), z3.Length(t) > 2))
+
+
+def wf_body(_a, _n, _i):
+    def _tok(i):
+        return V.sval(z3.Select(_a, i))
+
+    return z3.If(
+        z3.Or(_i >= _n, _i < 0),
+        z3.BoolVal(True),
+        z3.If(
+            z3.Or(tok_module_flag(_tok(_i)), tok_module_self(_tok(_i))),
+            z3.BoolVal(True),
+            z3.If(
+                tok_value_flag(_tok(_i)),
+                z3.Or(_i + 1 >= _n, z3.And(z3.Not(tok_dash(_tok(_i + 1))), WF(_a, _n, _i + 2))),
+                z3.If(tok_value_self(_tok(_i)), WF(_a, _n, _i + 1), z3.Not(tok_dash(_tok(_i)))),
+            ),
+        ),
+    )
+
+
+def py_wf(args, i=0):
+    n = len(args)
+    while True:
+        if i >= n:
+            return True
+        t = args[i]
+        if t in ("-m", "--module") or t.startswith("--module=") or (t.startswith("-m") and len(t) > 2):
+            return True
+        if t in ("-d", "--db_path"):
+            if i + 1 >= n:
+                return True
+            if args[i + 1].startswith("-"):
+                return False
+            i += 2
+            continue
+        if t.startswith("--db_path=") or (t.startswith("-d") and len(t) > 2):
+            i += 1
+            continue
+        return not t.startswith("-")
+
+
+def py_cut(args, i=0):
+    n = len(args)
+    while True:
+        if i >= n:
+            return n
+        t = args[i]
+        if t in ("-m", "--module"):
+            return min(i + 2, n)
+        if t.startswith("--module=") or (t.startswith("-m") and len(t) > 2):
+            return i + 1
+        if t in ("-d", "--db_path"):
+            i += 2
+            continue
+        if t.startswith("-"):
+            i += 1
+            continue
+        return i + 1
+
+
+def py_is_fs_option(t):
+    return t in ("-d", "--db_path", "-m", "--module") or t.startswith(("--db_path=", "--module=")) or (t.startswith(("-d", "-m")) and len(t) > 2)
 
 
 def install(w):
-    pass
+    def cut(ex, st, args):
+        a, i = args
+        v = ex.seq_of(st, a)
+        it = ex.as_int(st, i)
+        if ex.spec is not None:
+            ex.spec.lemma(CUT(v.arr, v.n, it) == cut_body(v.arr, v.n, it))
+        return Val(mki(CUT(v.arr, v.n, it)), int)
+
+    w.specfuns["cut"] = SpecFun("cut", cut, py_cut)
+
+    def wf(ex, st, args):
+        a, i = args
+        v = ex.seq_of(st, a)
+        it = ex.as_int(st, i)
+        if ex.spec is not None:
+            ex.spec.lemma(WF(v.arr, v.n, it) == wf_body(v.arr, v.n, it))
+        return Val(mkb(WF(v.arr, v.n, it)), bool)
+
+    w.specfuns["wf"] = SpecFun("wf", wf, py_wf)
+
+    def is_fs_option(ex, st, args):
+        t = V.sval(args[0].t)
+        long_eq = z3.Or(z3.PrefixOf(z3.StringVal("--db_path="), t), z3.PrefixOf(z3.StringVal("--module="), t))
+        short_attached = z3.And(z3.Or(z3.PrefixOf(z3.StringVal("-d"), t), z3.PrefixOf(z3.StringVal("-m"), t)), z3.Length(t) > 2)
+        return Val(mkb(z3.Or(_is_any(t, ["-d", "--db_path", "-m", "--module"]), long_eq, short_attached)), bool)
+
+    w.specfuns["is_fs_option"] = SpecFun("is_fs_option", is_fs_option, py_is_fs_option)
+
+    w.add_contract(
+        Contract(
+            "fakesnow.cli.split",
+            params={"args": ListT(str)},
+            requires=["wf(args, 0)"],
+            result=TupleT(items=[ListT(str), ListT(str)]),
+            ensures={
+                # fsargs ++ targs == args, cut exactly after the target spec
+                "C20.split.cut": "len(result[0]) == cut(args, 0)",
+                "C20.split.fs": "forall(0, len(result[0]), lambda j: result[0][j] == args[j])",
+                "C20.split.targs_len": "len(result[1]) == len(args) - cut(args, 0)",
+                "C20.split.targs": "forall(0, len(result[1]), lambda j: result[1][j] == args[cut(args, 0) + j])",
+            },
+            loops={
+                1: {
+                    "inv": [
+                        # i is python's loop variable: last value assigned, or the initial 0 when no iteration ran
+                        "i == (_k - 1 if _k > 0 else 0)",
+                        "isinstance(in_flag, bool)",
+                        # scanning position of the specification: a pending flag value is skipped
+                        "cut(args, 0) == cut(args, _k + 1 if in_flag else _k)",
+                        "wf(args, _k + 1 if in_flag else _k)",
+                        "implies(in_flag, _k > 0 and (_k >= len(args) or not args[_k].startswith('-')))",
+                    ]
+                }
+            },
+            locals={"in_flag": bool, "i": int, "a": str},
+            props=["C20"],
+        )
+    )
